@@ -126,6 +126,9 @@ def run(res):
     for n, e in failed:
         res.violation("obligation:" + n, "generated obligation %s no longer checks (protocol numbers / peers re-extracted from /repo)" % n,
                       {"theorem": n, "coqc": e}, found_input=(found > 0))
+    # the stream mapping read side: frames cut anywhere by the network must decode the same (conn / connipc over chunked reads)
+    from .. import stream
+    res.coverage["chunked_stream_scenarios"] = stream.run(res, "C15")
     res.coverage["trusted_base"] = core.COQ_TRUSTED + [
         "translator harness/cmd/consts (Info() of all 24 protocol constructors)",
         "the harness's own raw peer (Go net/tls/gorilla websocket) and its independent encoder, itself cross-checked against the model's frame/hs_header inside Coq",
